@@ -24,7 +24,7 @@
 //!
 use crate::engine::Engine;
 use crate::goal::{AnyGoal, InferredGoal};
-use crate::lterm::LTerm;
+use crate::lterm::{LTerm, LTermInner};
 use crate::solver::{Solve, Solver};
 use crate::state::{unify_rec, Constraint, SMap, SResult, State};
 use crate::stream::Stream;
@@ -164,7 +164,15 @@ where
         let _scope = crate::verif::scope("diseq_run");
         let mut extension = SMap::new();
         let mut test_state = state.clone();
-        for (u, v) in self.0.iter() {
+        // The pairs are re-unified in a fixed order (by variable id): the simplified constraint
+        // that is stored, and later reported with an answer, must not depend on the iteration
+        // order of the hash map.
+        let mut pairs: Vec<(&LTerm<U, E>, &LTerm<U, E>)> = self.0.iter().collect();
+        pairs.sort_by_key(|(k, _)| match k.as_ref() {
+            LTermInner::Var(id, _) => Some(*id),
+            _ => None,
+        });
+        for (u, v) in pairs {
             match unify_rec(test_state, &mut extension, &u, &v) {
                 Err(_) => return Ok(state),
                 Ok(new_state) => test_state = new_state,
